@@ -4,7 +4,10 @@ open Frame
 
 type tree = S of string | E of string | I of string (* decimal *) | B of string option | A of tree list option
 
+type arg = AS of string | AB of string | AN | AI of string
 type item = V of tree | Raw of string | Inline of string (* line without CRLF *) | Keep of int
+  | VC of tree                      (* the same tree, built through NewInt / NewBulkBytes / NewArray + Append* *)
+  | Cmd of string * arg list        (* redis.NewCommand(name, args...) *)
 
 type case =
   | Stream of int * int * item list * bool   (* bufsize, chunk, items, pure (no corruption) *)
@@ -12,7 +15,7 @@ type case =
   | Itos of string
 
 let id = "C10"
-let rule = "streams of random RESP trees (depth<=4; ints at -1025..-1023, 524286..524289, int64 limits; binary bulks with CR/LF; nil vs empty), \
+let rule = "streams of random RESP trees (depth<=4; ints at -1025..-1023, 524286..524289, int64 limits; binary bulks with CR/LF; nil vs empty; built from struct literals, through the constructors NewInt / NewBulkBytes / NewArray + Append*, and as NewCommand(name, string / []byte / nil / int64 args)), \
 inline command lines and keep-alive newlines, read through bufio sizes 16..4096 and readers returning 1..n bytes; for each of a set of values \
 ALL truncations and single-byte corruptions (every position x 9 replacement bytes); non-trivial = stream with >=1 value; distinct by wire line"
 
@@ -46,6 +49,9 @@ let rec gen_tree st depth =
           | _ -> B (Some (rnd_string st (rnd_pick st [ 1; 2; 5; 17; 100 ]))))
   | _ -> (match rnd_int st 8 with 0 -> A None | 1 -> A (Some []) | _ -> A (Some (List.init (1 + rnd_int st 4) (fun _ -> gen_tree st (depth + 1)))))
 
+let tree_of_cmd name args = A (Some (B (Some name) :: List.map (function AS x | AB x -> B (Some x) | AN -> B None | AI d -> B (Some d)) args))
+(* the value an item stands for *)
+let value_of = function V t | VC t -> Some t | Cmd (n, a) -> Some (tree_of_cmd n a) | _ -> None
 let inline_lines = [ "PING"; "SET a b"; "  GET   k "; "x"; "ECHO a\rb"; "QUIT  " ]
 
 let enc_model t = string_of_bytes (Model.encode (to_model t))
@@ -56,7 +62,13 @@ let gen st tier =
   let streams = List.init (600 * k) (fun _ ->
     let n = 1 + rnd_int st 6 in
     let items = List.init n (fun _ -> match rnd_int st 10 with
-      | 0 -> Keep (1 + rnd_int st 3) | 1 -> Inline (rnd_pick st inline_lines) | _ -> V (gen_tree st 0)) in
+      | 0 -> Keep (1 + rnd_int st 3) | 1 -> Inline (rnd_pick st inline_lines)
+      | 2 | 3 -> VC (gen_tree st 0)
+      | 4 -> Cmd (rnd_pick st [ "psync"; "replconf"; "SET"; "" ],
+                  List.init (rnd_int st 4) (fun _ -> match rnd_int st 6 with
+                    | 0 -> AS "" | 1 -> AB "" | 2 -> AN | 3 -> AI (rnd_pick st ints)
+                    | 4 -> AS (rnd_string_of st "\r\n$*ab" (rnd_int st 6)) | _ -> AB (no_nl st (rnd_int st 8))))
+      | _ -> V (gen_tree st 0)) in
     Stream (rnd_pick st [ 16; 17; 64; 4096 ], rnd_pick st [ 1; 2; 7; 100000 ], items, true)) in
   let vals = List.init (8 * k) (fun _ -> gen_tree st 2) @ [ B (Some "ab"); A (Some [ B (Some "SET"); B (Some "k"); I "-1025" ]); S "OK"; A None ] in
   let corrupt = List.concat_map (fun t ->
@@ -79,6 +91,8 @@ let corpus = [ Stream (4096, 100000, [ Inline "PING"; V (B (Some "x")) ], true);
 
 let item_str = function
   | V t -> "V:" ^ tree_str t
+  | VC t -> "C:" ^ tree_str t
+  | Cmd (n, a) -> "K:" ^ String.concat "," (hex_of_string n :: List.map (function AS x -> "s" ^ hex_of_string x | AB x -> "b" ^ hex_of_string x | AN -> "n" | AI d -> "i" ^ d) a)
   | Raw s -> "R:" ^ hex_of_string s
   | Inline l -> "R:" ^ hex_of_string (l ^ "\r\n")
   | Keep n -> "R:" ^ hex_of_string (String.make n '\n')
@@ -91,7 +105,9 @@ let to_line = function
 let show = function
   | Stream (b, c, items, pure) ->
       Printf.sprintf "%s stream [%s] via bufio(%d) over %d-byte reads" (if pure then "well-formed" else "corrupted")
-        (String.concat " | " (List.map (function V t -> tree_str t | Raw s -> "raw " ^ show_bytes s | Inline l -> "inline " ^ show_bytes l
+        (String.concat " | " (List.map (function V t -> tree_str t | VC t -> "(via constructors) " ^ tree_str t
+                                               | Cmd (n, a) -> Printf.sprintf "NewCommand(%S%s)" n (String.concat "" (List.map (function AS x -> Printf.sprintf ", %S" x | AB x -> Printf.sprintf ", []byte(%S)" x | AN -> ", nil" | AI d -> ", int64(" ^ d ^ ")") a))
+                                               | Raw s -> "raw " ^ show_bytes s | Inline l -> "inline " ^ show_bytes l
                                                | Keep n -> Printf.sprintf "%d x \\n" n) items)) b c
   | Trunc (t, n) -> Printf.sprintf "first %d bytes of the encoding of %s" n (tree_str t)
   | Itos d -> "itos(" ^ d ^ ")"
@@ -99,7 +115,7 @@ let show = function
 let classify = function
   | Stream (_, _, items, pure) ->
       if not pure then Some "corrupted" else
-      if List.exists (function V _ -> true | _ -> false) items then
+      if List.exists (fun it -> value_of it <> None) items then
         Some (if List.exists (function Inline _ -> true | _ -> false) items then "stream:inline+values"
               else if List.exists (function Keep _ -> true | _ -> false) items then "stream:keepalive+values" else "stream:values")
       else Some "stream:no-value"
@@ -131,8 +147,9 @@ let judge c obs =
       if impl <> "none end=err" then fail "oracle" "truncation-yields-value" m impl "a truncated encoding decoded to a value"
       else if impl <> m then fail "diff" "trunc-model" m impl "" else Agree
   | Stream (_, _, items, pure) ->
-      let encs = List.filter_map (function V t -> Some (enc_model t) | _ -> None) items in
-      let stream = String.concat "" (List.map (function V t -> enc_model t | Raw s -> s | Inline l -> l ^ "\r\n" | Keep n -> String.make n '\n') items) in
+      let encs = List.filter_map (fun it -> Option.map enc_model (value_of it)) items in
+      let stream = String.concat "" (List.map (function Raw s -> s | Inline l -> l ^ "\r\n" | Keep n -> String.make n '\n'
+                                                   | it -> (match value_of it with Some t -> enc_model t | None -> "")) items) in
       let encs_s = if encs = [] then "none" else String.concat ";" (List.map hex_of_string encs) in
       let m = encs_s ^ " " ^ model_stream stream in
       if pure then begin
@@ -140,7 +157,8 @@ let judge c obs =
         let off = ref 0 in
         let pending = ref 0 in
         let exp = List.filter_map (function
-          | V t -> off := !off + !pending + String.length (enc_model t); pending := 0; Some (tree_str t ^ "@" ^ string_of_int !off)
+          | (V _ | VC _ | Cmd _) as it -> let t = Option.get (value_of it) in
+              off := !off + !pending + String.length (enc_model t); pending := 0; Some (tree_str t ^ "@" ^ string_of_int !off)
           | Inline l -> off := !off + !pending + String.length l + 2; pending := 0; Some (tree_str (split_inline l) ^ "@" ^ string_of_int !off)
           | Keep n -> pending := !pending + n; None
           | Raw _ -> None) items in
